@@ -212,6 +212,31 @@ theorem expiry_obtainable (cfg : Cfg) (log : List Cmd) (l a ta t₀ : Nat)
   refine ⟨rfl, by simp [set_get], ?_⟩
   simp [prolongate_get, hold, expired, he]
 
+/-- **An expired lock is not revived by a prolongation** -- neither by the old holder's own nor by anybody
+else's: on any table where lock `l` has time `ta`, `prolongate c t` with `t > ta + U` removes `l` and does not
+re-insert it (the code's `continue` after the `del`), so the old holder does not consider it held at any time,
+and the next `acquire` of `l`, by anybody and whatever its stamp (e.g. stamped before `t`, committed after it),
+is granted.  Both variants of the code. -/
+theorem expired_lock_not_revived_by_prolongation (cfg : Cfg) (s : Table) (l a ta c t : Nat)
+    (hold : s l = some (a, ta)) (ht : ta + cfg.U < t) :
+    prolongate cfg s c t l = none ∧
+    (∀ now, isAcquired cfg (prolongate cfg s c t) l a now = false) ∧
+    (∀ b t', acquire cfg (prolongate cfg s c t) l b t' = ((prolongate cfg s c t).set l (b, t'), true)) := by
+  have h : prolongate cfg s c t l = none := by simp [prolongate_get, hold, expired, ht]
+  refine ⟨h, ?_, ?_⟩
+  · intro now
+    simp [isAcquired, h]
+  · intro b t'
+    exact acquire_free cfg _ l b t' h
+
+/-- non-vacuity: the holder itself prolongs 11 after its last stamp (U = 10); a competitor stamped in between
+is then granted; one tick earlier the holder would have kept the lock. -/
+example :
+    let cfg : Cfg := { U := 10 }
+    let s := stateAfter cfg [.acquire 1 1 100]
+    prolongate cfg s 1 111 1 = none ∧ (acquire cfg (prolongate cfg s 1 111) 1 2 105).2 = true ∧
+      prolongate cfg s 1 110 1 = some (1, 110) := by decide
+
 /-- non-vacuity of `expiry_obtainable`: holder 1 with stamps 100, 104, 101 (in this log order), U = 10. -/
 example :
     let cfg : Cfg := { U := 10, mono := true }
